@@ -68,11 +68,11 @@ class OrderBackend(ParallelBackendBase):
             call_no = len(self.calls)
             self.calls.append(len(batch))
             if self.capture:
+                # one deep copy of the whole call: objects shared between tasks stay shared
                 items = []
                 for d in batch:
-                    for it in getattr(d.func, "items", []):
-                        items.append(copy.deepcopy(it))
-                self.captured.append(items)
+                    items.extend(getattr(d.func, "items", []))
+                self.captured.append(copy.deepcopy(items))
             order = list(self.chooser(call_no, len(batch)))
             assert sorted(order) == list(range(len(batch))), order
             for i in order:
